@@ -581,8 +581,11 @@ func runC09(res *Result, tier string, seed int64, replay string) {
 				at.Kids = append(at.Kids, mk("mj-class", "css-class", "zz9", attr, v1, "name", "m1", filler, "t"))
 				find(d).Set("mj-class", "m1")
 			}), find, attr, v1, "mj-class(name-middle)", informative)
-			// the class list is split on any white space: tabs, line breaks, leading and trailing blanks, repeated and unknown names
-			for si, sep := range []string{"m1\tm2", "m1\nm2", "\tm2", "m2\n", "m1  m2", " m1 \t\n m2 ", "m1 nosuch m2", "m2 m2", "m1\r\nm2"} {
+			// the class list is split on any white space: tabs, line breaks, leading and trailing blanks, repeated and unknown names,
+			// names repeated with another class in between
+			for si, sep := range []string{"m1\tm2", "m1\nm2", "\tm2", "m2\n", "m1  m2", " m1 \t\n m2 ", "m1 nosuch m2", "m2 m2", "m1\r\nm2",
+				// a name listed again further on: the LAST listed class decides, so a repeat moves a class to the end
+				"m2 m1 m2", "m1 m2 m1 m2", "m2 m2 m1 m2", "m2 nosuch m1 nosuch m2"} {
 				sep := sep
 				noop(withHead(func(at, d *Node) {
 					at.Kids = append(at.Kids, mk("mj-class", "name", "m1", attr, v2), mk("mj-class", "name", "m2", attr, v1))
